@@ -257,7 +257,7 @@ func checkParsePointerAssertions(c *Ctx, ev *tmpl.Evaluator, gen *packages.Packa
 				if i := strings.LastIndex(before, "formats.Parse("); i >= 0 {
 					before = before[i:]
 				}
-				if regexp.MustCompile(`if (\w+), \w+ := `+regexp.QuoteMeta(oc.Match[1])+`\.\(\*[^)]+\); \w+ \{[^{}]*`+regexp.QuoteMeta(oc.Match[1])+` = \*(\w+)\s*\}`).MatchString(before) {
+				if regexp.MustCompile(`if (\w+), \w+ := ` + regexp.QuoteMeta(oc.Match[1]) + `\.\(\*[^)]+\); \w+ \{[^{}]*` + regexp.QuoteMeta(oc.Match[1]) + ` = \*(\w+)\s*\}`).MatchString(before) {
 					c.Ok(rule, key, l.Tree.PosStr(oc.Pos), "value assertion after the pointer Parse returned has been dereferenced")
 					continue
 				}
@@ -812,7 +812,6 @@ func checkDefaultMedia(c *Ctx, gen *packages.Package) {
 			why+": when the spec has no global list and only some operations declare media types, the others are served with application/json by the runtime but the generated API registers no JSON serializer (500: no producer / 415)")
 	}
 }
-
 
 // checkHeaderWriterGuards: the server writes a response header whenever its rendered value is not
 // empty; any further condition on the value (non-zero, non-default) makes a legitimate value — false,
